@@ -191,6 +191,21 @@ func (r *Runner) exec(o *Op) (res string) {
 		if err != nil {
 			return "err"
 		}
+	case "setparams":
+		// governance parameter change: the proposal handler validates the set (types/params.go, the same
+		// per-field validators the params subspace applies) and stores it; no message, no signer. An illegal
+		// set is refused and nothing is written. From the next step on every monitor, query and export that
+		// reads r.cfg sees the parameters in force.
+		o.OK = true
+		p := o.P.proposed()
+		if err := p.Validate(); err != nil {
+			o.Note = err.Error()
+			return "err"
+		}
+		r.w.k.SetParams(cctx, p)
+		write()
+		r.cfg = *o.P
+		return "ok"
 	case "modupd", "modpause", "modstart", "modkill":
 		// the module that owns the context drives it through the keeper API (no message, no ValidateBasic)
 		o.OK = true
